@@ -586,6 +586,60 @@ func fsChildMain(args []string) {
 	}
 }
 
+// fsDirOnDemand: "files are created ... in a directory created on demand": every open creates a missing
+// directory -- the first write, Reopen, and the open after a rotation, also when the directory vanished
+// after the sink had already opened a file there
+func fsDirOnDemand(h *fsHarness, p *prng, rounds int) {
+	for r := 0; r < rounds; r++ {
+		h.st.Cases++
+		dir := filepath.Join(h.base, fmt.Sprintf("ondemand%d", r), "a", "b")
+		os.RemoveAll(filepath.Join(h.base, fmt.Sprintf("ondemand%d", r)))
+		mb := []int{0, 5}[p.intn(2)]
+		tso := p.intn(2) == 0
+		sink := &eventlogger.FileSink{Path: dir, FileName: "ev.log", MaxBytes: mb, MaxFiles: 2, TimestampOnlyOnRotate: tso}
+		write := func(id int) error {
+			_, err := sink.Process(context.Background(), &eventlogger.Event{Type: "t", Formatted: map[string][]byte{"json": eventBytes(id, 12)}})
+			return err
+		}
+		if err := write(1); err != nil {
+			h.oracle("C15 first write into a directory that does not exist yet failed: %v", err)
+			continue
+		}
+		os.RemoveAll(dir) // the directory goes away under the sink (a clean-up job, a re-mounted volume)
+		viaReopen := p.intn(2) == 0
+		if viaReopen {
+			if err := sink.Reopen(); err != nil {
+				h.oracle("C15 Reopen after the log directory was removed failed (%v): the directory is created on demand", err)
+				continue
+			}
+		}
+		var err error
+		for id := 2; id <= 4 && err == nil; id++ {
+			err = write(id)
+		}
+		// (in timestamp-only mode a rotation first renames the plain file, which is gone with its directory:
+		// that write fails, as it does after an external rename; no claim there)
+		sure := viaReopen || (mb > 0 && !tso)
+		if err != nil && sure {
+			h.oracle("C15 writes after the log directory was removed (reopen=%v, MaxBytes=%d) keep failing: %v", viaReopen, mb, err)
+			continue
+		}
+		if sure {
+			ents, _ := os.ReadDir(dir)
+			if len(ents) == 0 {
+				h.oracle("C15 the log directory was not recreated (reopen=%v, MaxBytes=%d)", viaReopen, mb)
+			}
+			for _, e := range ents {
+				if info, ierr := e.Info(); ierr == nil && info.Mode().Perm() != 0o600 {
+					h.oracle("C15 file %s in the recreated directory has mode %o, want 0600", e.Name(), info.Mode().Perm())
+				}
+			}
+		}
+		h.st.hit("dir-on-demand")
+		os.RemoveAll(filepath.Join(h.base, fmt.Sprintf("ondemand%d", r)))
+	}
+}
+
 func fsKill(h *fsHarness, p *prng, rounds int) {
 	self, _ := os.Executable()
 	for r := 0; r < rounds; r++ {
@@ -698,6 +752,7 @@ func filesinkMain(args []string) {
 		}
 		fsConcurrent(h, p, *conc)
 		fsKill(h, p, *kill)
+		fsDirOnDemand(h, p, 6)
 	}
 	o.close()
 	os.RemoveAll(h.base)
